@@ -4,3 +4,4 @@ import Model.Hull
 import Model.Fit
 import Model.Aff
 import Model.Corrector
+import Model.BuildFit
